@@ -35,6 +35,29 @@ def test_summary(out):
     return [(a, int(b), int(c)) for a, b, c in res]
 
 
+def extract_needs(text):
+    """section (b) of the agent's SEEDED.md: what the change needs in order to manifest"""
+    m = re.search(r"\(b\)[^\n]*\n(.*?)(?=\n#+ |\n\*\*\(c\)|\n\(c\)|\n## \(c\)|\Z)", text, re.S)
+    txt = m.group(1).strip() if m else None
+    if txt is None or len(txt) < 20:
+        m = re.search(r"\(b\)\s*(.*?)(?=\(c\))", text, re.S)
+        txt = m.group(1).strip() if m else None
+    return re.sub(r"\s+", " ", txt or "")[:900] or None
+
+
+def backfill():
+    for d in sorted(os.listdir(SEEDED)):
+        mp = os.path.join(SEEDED, d, "meta.json")
+        sp = os.path.join(SEEDED, d, "SEEDED.md")
+        if os.path.exists(mp) and os.path.exists(sp):
+            with open(mp) as f:
+                meta = json.load(f)
+            with open(sp) as f:
+                meta["needs"] = extract_needs(f.read())
+            with open(mp, "w") as f:
+                json.dump(meta, f, indent=1)
+
+
 def ingest(wt, pid, name):
     d = os.path.join(SEEDED, name)
     os.makedirs(d, exist_ok=True)
@@ -87,6 +110,7 @@ def ingest(wt, pid, name):
     except OSError:
         pass
     meta["agent_notes_file"] = "SEEDED.md" if needs else None
+    meta["needs"] = extract_needs(needs)
     with open(os.path.join(d, "meta.json"), "w") as f:
         json.dump(meta, f, indent=1)
     print(json.dumps({k: meta[k] for k in ("confirmed", "demo_without_change", "demo_with_change", "suite_with_change")}, indent=1)[:1500])
@@ -133,5 +157,7 @@ def check(name, all_props=False):
 if __name__ == "__main__":
     if sys.argv[1] == "ingest":
         sys.exit(ingest(sys.argv[2], sys.argv[3], sys.argv[4]))
+    elif sys.argv[1] == "backfill":
+        backfill()
     elif sys.argv[1] == "check":
         sys.exit(check(sys.argv[2], "--all" in sys.argv))
